@@ -470,9 +470,14 @@ def rafaFinish (env : ModelEnv) (a : ARef) (l : LRef) (lf rf : FieldLoc) (s : H)
   else (if (!found) = true then .error .lookupError else .ok s)
 
 def rafaRest (env : ModelEnv) (a : ARef) (l : LRef) (lf rf : FieldLoc) (p : Option H × H) : Except PyErr H :=
-  match p.1 with
-  | some r => .ok r
-  | none => (forIn [lf, rf] (p.2, false) (rafaStep2 env a)).bind fun q => rafaFinish env a l lf rf q.1 q.2
+  Break.runK.match_1 (fun _ => Except PyErr H) p.1 (fun r => .ok r) fun _ =>
+    (forIn [lf, rf] (p.2, false) (rafaStep2 env a)).bind fun q => rafaFinish env a l lf rf q.1 q.2
+
+theorem rafaRest_some (env : ModelEnv) (a : ARef) (l : LRef) (lf rf : FieldLoc) (r s : H) :
+    rafaRest env a l lf rf (some r, s) = .ok r := rfl
+theorem rafaRest_none (env : ModelEnv) (a : ARef) (l : LRef) (lf rf : FieldLoc) (s : H) :
+    rafaRest env a l lf rf (none, s) =
+      (forIn [lf, rf] (s, false) (rafaStep2 env a)).bind fun q => rafaFinish env a l lf rf q.1 q.2 := rfl
 
 def rafaMain (env : ModelEnv) (a : ARef) (l : LRef) (s : H) : Except PyErr H :=
   (pyGetattr s l (model_get_association_field_names s env l).1).bind fun lf =>
@@ -485,4 +490,231 @@ theorem rafa_eq (s : H) (env : ModelEnv) (a : ARef) (l : LRef) :
       if (!pyIn (eqAssoc env s) s.associations l) = true then .error .lookupError else rafaMain env a l s := by
   unfold model_remove_asset_from_association
   rfl
+
+/-! ### the first loop (early return through `remove_association`) -/
+
+theorem rafa_loop1 (env : ModelEnv) (a : ARef) (l : LRef) (lf rf : FieldLoc) (s : H)
+    (K : Option H × H → Except PyErr H) :
+    (forIn [lf, rf] ((none : Option H), s) (rafaStep1 env a l)).bind K =
+      if ((pyIn (eqAsset env s) (s.rd lf) a && (((s.rd lf).length : Int) == (1 : Int))) ||
+          (pyIn (eqAsset env s) (s.rd rf) a && (((s.rd rf).length : Int) == (1 : Int)))) = true then
+        (model_remove_association s env l).bind fun s' => K (some s', s')
+      else K (none, s) := by
+  rw [List.forIn_cons]
+  unfold rafaStep1
+  dsimp only
+  by_cases c1 : (pyIn (eqAsset env s) (s.rd lf) a && (((s.rd lf).length : Int) == (1 : Int))) = true
+  · rw [if_pos c1, if_pos (by rw [c1]; rfl)]
+    cases model_remove_association s env l <;> rfl
+  · rw [if_neg c1]
+    have c1' := Bool.eq_false_iff.2 c1
+    rw [c1', Bool.false_or]
+    simp only [bind, Except.bind]
+    rw [List.forIn_cons]
+    dsimp only
+    by_cases c2 : (pyIn (eqAsset env s) (s.rd rf) a && (((s.rd rf).length : Int) == (1 : Int))) = true
+    · rw [if_pos c2, if_pos c2]
+      cases model_remove_association s env l <;> rfl
+    · rw [if_neg c2, if_neg c2]
+      rfl
+
+theorem rm_len_one (n : Nat) : ((n : Int) == (1 : Int)) = (n == 1) := by
+  rw [Bool.eq_iff_iff]
+  simp only [beq_iff_eq]
+  omega
+
+/-! ### the second loop: `field.remove(asset)` for both fields -/
+
+theorem rm_setL_self (s : H) (l : LRef) : s.setL l (s.l l) = s := by
+  cases s with
+  | mk a' afresh l' lfresh t tfresh e efresh name assets associations tta attackers ids names next =>
+    unfold H.setL
+    simp only [H.mk.injEq, and_true, true_and]
+    funext x
+    by_cases hx : x = l
+    · subst hx; simp
+    · simp [hx]
+
+theorem rm_setL_setL (s : H) (l : LRef) (o o' : PyAssoc) : (s.setL l o).setL l o' = s.setL l o' := by
+  unfold H.setL
+  simp only [H.mk.injEq, and_true, true_and]
+  funext x
+  by_cases hx : x = l <;> simp [hx]
+
+theorem rm_setL_get (s : H) (l : LRef) (o : PyAssoc) : (s.setL l o).l l = o := by
+  unfold H.setL; simp
+
+/-- the heap after the two `field.remove(asset)` -/
+def rafaH (s : H) (a : ARef) (l : LRef) : H :=
+  s.setL l { s.l l with left := (s.l l).left.erase a, right := (s.l l).right.erase a }
+
+theorem rafaH_rd_left (s : H) (a : ARef) (l : LRef) : (rafaH s a l).rd (l, false) = (s.l l).left.erase a := by
+  rw [rm_rd_left]; unfold rafaH; rw [rm_setL_get]
+theorem rafaH_rd_right (s : H) (a : ARef) (l : LRef) : (rafaH s a l).rd (l, true) = (s.l l).right.erase a := by
+  rw [rm_rd_right]; unfold rafaH; rw [rm_setL_get]
+
+theorem rafa_loop2 {env : ModelEnv} (hE : EqId env) (a : ARef) (l : LRef) (s : H) :
+    forIn [((l, false) : FieldLoc), (l, true)] (s, false) (rafaStep2 env a) =
+      .ok (rafaH s a l, (s.l l).left.contains a || (s.l l).right.contains a) := by
+  rw [List.forIn_cons]
+  unfold rafaStep2
+  dsimp only
+  rw [pyIn_asset hE, rm_rd_left]
+  by_cases hL : (s.l l).left.contains a = true
+  · rw [if_pos hL, pyRemoveBy_asset hE, if_pos hL, ok_bind]
+    simp only [bind, Except.bind]
+    rw [List.forIn_cons]
+    dsimp only
+    rw [pyIn_asset hE, rm_rd_right, rm_wr_left, rm_setL_get]
+    dsimp only
+    by_cases hR : (s.l l).right.contains a = true
+    · rw [if_pos hR, pyRemoveBy_asset hE, if_pos hR]
+      simp only [bind, Except.bind]
+      rw [rm_wr_right, rm_setL_get, rm_setL_setL, hL]
+      rfl
+    · rw [if_neg hR]
+      simp only [bind, Except.bind]
+      have hR' : a ∉ (s.l l).right := fun h => hR (List.contains_iff_mem.2 h)
+      unfold rafaH
+      rw [List.erase_of_not_mem hR', hL]
+      rfl
+  · rw [if_neg hL]
+    simp only [bind, Except.bind]
+    rw [List.forIn_cons]
+    dsimp only
+    have hL' : a ∉ (s.l l).left := fun h => hL (List.contains_iff_mem.2 h)
+    rw [pyIn_asset hE, rm_rd_right]
+    have hLf := Bool.eq_false_iff.2 hL
+    by_cases hR : (s.l l).right.contains a = true
+    · rw [if_pos hR, pyRemoveBy_asset hE, if_pos hR]
+      simp only [bind, Except.bind]
+      rw [rm_wr_right]
+      unfold rafaH
+      rw [List.erase_of_not_mem hL', hLf, hR]
+      rfl
+    · rw [if_neg hR]
+      simp only [bind, Except.bind]
+      have hR' : a ∉ (s.l l).right := fun h => hR (List.contains_iff_mem.2 h)
+      have hRf := Bool.eq_false_iff.2 hR
+      unfold rafaH
+      rw [List.erase_of_not_mem hL', List.erase_of_not_mem hR', hLf, hRf]
+      have : s.setL l { s.l l with left := (s.l l).left, right := (s.l l).right } = s := rm_setL_self s l
+      rw [this]
+      rfl
+
+theorem rafaH_abs (s : H) (a : ARef) (l : LRef) :
+    abs (rafaH s a l) =
+      MS.updL (abs s) l (fun o => { o with left := o.left.erase a, right := o.right.erase a }) :=
+  abs_setL_updL s l _ _ rfl
+
+/-! ### (3) the tie theorem of `remove_asset_from_association` -/
+
+theorem rm_bind_ok_self {ε α : Type} (x : Except ε α) : x.bind (fun v => Except.ok v) = x := by
+  cases x <;> rfl
+
+theorem rafa_tie {env : ModelEnv} (hE : EqId env) (s : H) (hI : MS.Inv (abs s)) (a : ARef) (l : LRef) :
+    absR (model_remove_asset_from_association s env a l) = MS.removeAssetFromAssociation (abs s) a l := by
+  rw [rafa_eq, pyIn_asset hE, pyIn_assoc hE]
+  unfold MS.removeAssetFromAssociation
+  have eA : (abs s).assets = s.assets := rfl
+  have eL : (abs s).associations = s.associations := rfl
+  have eLeft : ((abs s).lobj l).left = (s.l l).left := rfl
+  have eRight : ((abs s).lobj l).right = (s.l l).right := rfl
+  dsimp only
+  rw [eA, eL, eLeft, eRight]
+  cases ha : s.assets.contains a with
+  | false => rfl
+  | true =>
+  cases hl : s.associations.contains l with
+  | false => rfl
+  | true =>
+  simp only [Bool.not_true, Bool.false_eq_true, if_false]
+  unfold rafaMain
+  rw [rm_field_names]
+  dsimp only
+  rw [rm_getattr_lf, ok_bind, rm_getattr_rf, ok_bind, rafa_loop1, pyIn_asset hE, pyIn_asset hE, rm_rd_left,
+    rm_rd_right, rm_len_one, rm_len_one]
+  by_cases c : (((s.l l).left.contains a && (s.l l).left.length == 1) ||
+      ((s.l l).right.contains a && (s.l l).right.length == 1)) = true
+  · rw [if_pos c, if_pos c]
+    have : (fun s' => rafaRest env a l (l, false) (l, true) (some s', s')) = fun s' => Except.ok s' := rfl
+    rw [this, rm_bind_ok_self]
+    exact remove_association_tie hE s hI l
+  · rw [if_neg c, if_neg c, rafaRest_none, rafa_loop2 hE, ok_bind]
+    dsimp only
+    unfold rafaFinish
+    rw [rafaH_rd_left, rafaH_rd_right, pyIn_asset hE, pyIn_asset hE]
+    rw [← rafaH_abs]
+    have eL1 : ((abs (rafaH s a l)).lobj l).left = (s.l l).left.erase a := by
+      show ((rafaH s a l).l l).left = _
+      unfold rafaH; rw [rm_setL_get]
+    have eR1 : ((abs (rafaH s a l)).lobj l).right = (s.l l).right.erase a := by
+      show ((rafaH s a l).l l).right = _
+      unfold rafaH; rw [rm_setL_get]
+    rw [eL1, eR1]
+    cases hf : ((s.l l).left.contains a || (s.l l).right.contains a) with
+    | false => rfl
+    | true =>
+      simp only [Bool.true_and, Bool.not_true, Bool.false_eq_true, if_false]
+      cases hc : (!((s.l l).left.erase a).contains a && !((s.l l).right.erase a).contains a) with
+      | false => rfl
+      | true =>
+        simp only [if_true]
+        rw [absR_ok, pyRemoveAllBy_assoc hE]
+        congr 1
+        exact abs_setA_updA _ _ _ _ rfl
+
+/-! ### (4) `remove_asset_from_association` does not touch attackers, tuples, counters -/
+
+theorem rafa_step2_tframe (env : ModelEnv) (a : ARef) (field : FieldLoc) (p : H × Bool) (q : ForInStep (H × Bool))
+    (h : rafaStep2 env a field p = .ok q) : TFrame p.1 (rmVal q).1 := by
+  unfold rafaStep2 at h
+  split at h
+  · obtain ⟨v, _, hv⟩ := bind_ok h
+    injection hv with hv
+    subst hv
+    exact TFrame.wr _ _ _
+  · injection h with h
+    subst h
+    exact TFrame.refl _
+
+theorem rafa_finish_tframe (env : ModelEnv) (a : ARef) (l : LRef) (lf rf : FieldLoc) (s s' : H) (found : Bool)
+    (h : rafaFinish env a l lf rf s found = .ok s') : TFrame s s' := by
+  unfold rafaFinish at h
+  split at h
+  · split at h
+    · cases h
+    · injection h with h
+      subst h
+      exact TFrame.setA _ _ _
+  · split at h
+    · cases h
+    · injection h with h
+      subst h
+      exact TFrame.refl _
+
+theorem rafa_tframe {env : ModelEnv} (s s' : H) (a : ARef) (l : LRef)
+    (h : model_remove_asset_from_association s env a l = .ok s') : TFrame s s' := by
+  rw [rafa_eq] at h
+  split at h
+  · cases h
+  split at h
+  · cases h
+  unfold rafaMain at h
+  obtain ⟨lf, _, h⟩ := bind_ok h
+  obtain ⟨rf, _, h⟩ := bind_ok h
+  rw [rafa_loop1] at h
+  split at h
+  · obtain ⟨s1, h1, h⟩ := bind_ok h
+    rw [rafaRest_some] at h
+    injection h with h
+    subst h
+    exact remove_association_tframe _ _ _ h1
+  · rw [rafaRest_none] at h
+    obtain ⟨q, hq, h⟩ := bind_ok h
+    have hR : ∀ x y z : H × Bool, TFrame x.1 y.1 → TFrame y.1 z.1 → TFrame x.1 z.1 :=
+      fun _ _ _ h1 h2 => h1.trans h2
+    have f1 := rm_forIn_rel (fun x y : H × Bool => TFrame x.1 y.1) (fun _ => TFrame.refl _) hR
+      (rafaStep2 env a) (rafa_step2_tframe env a) _ _ _ hq
+    exact f1.trans (rafa_finish_tframe env a l lf rf _ _ _ h)
 end MalVerif.PyM.Tie
